@@ -306,10 +306,13 @@ Section InterpPriv.
               private_attrs h').
     { intros hx vrf Px Fv Hx. destruct (alloc hx (NObj c ((u "_inner", VR s) :: vrf))) as [h4 o] eqn:Ea2.
       inversion Hx; subst. eapply priv_alloc; [exact Px | | exact Ea2]. simpl. constructor; [reflexivity | exact Fv]. }
-    destruct (assoc (u "_valid_refs") m); [eapply K; [exact P3 | repeat constructor | exact H]|].
-    destruct (mem_ustr c (observables W)); [|eapply K; [exact P3 | constructor | exact H]].
-    destruct (alloc h3 (NList [])) as [hv lv] eqn:Eav.
-    eapply K; [| repeat constructor | exact H]. eapply priv_alloc; [exact P3 | simpl; auto | exact Eav].
+    destruct (assoc (u "_valid_refs") m) as [r0|].
+    - apply (K h3 [(u "_valid_refs", r0)] P3); [constructor; [reflexivity | constructor] | exact H].
+    - destruct (mem_ustr c (observables W)).
+      + destruct (alloc h3 (NList [])) as [hv lv] eqn:Eav.
+        assert (Pv : private_attrs hv) by (eapply priv_alloc'; [exact Eav | exact P3 | simpl; auto]).
+        apply (K hv [(u "_valid_refs", VR lv)] Pv); [constructor; [reflexivity | constructor] | exact H].
+      + apply (K h3 [] P3); [constructor | exact H].
   Qed.
 
   Lemma ext_step_priv : forall ext ov h h' res,
@@ -418,13 +421,18 @@ Section ApiPriv.
   Proof. unfold granular_add, bindv. intros obj marking selectors h h' res P H. crunch H; fin. Qed.
   Hint Resolve granular_add_priv : priv.
 
-  Lemma clear_loop_priv : forall sels ems h h', private_attrs h -> clear_loop sels ems h = Some h' -> private_attrs h'.
+  Lemma clear_loop_priv : forall mr lg sels ems h h', private_attrs h -> clear_loop mr lg sels ems h = Some h' -> private_attrs h'.
   Proof. induction ems as [|[a|d] rest IH]; simpl; intros h h' P H; crunch H; fin. Qed.
   Hint Resolve clear_loop_priv : priv.
 
+  Lemma granular_clear_f_priv : forall mr lg obj selectors h h' res,
+    private_attrs h -> granular_clear_f vt W mr lg obj selectors h = (h', res) -> private_attrs h'.
+  Proof. unfold granular_clear_f, bindv. intros mr lg obj selectors h h' res P H. crunch H; fin. Qed.
+  Hint Resolve granular_clear_f_priv : priv.
+
   Lemma granular_clear_priv : forall obj selectors h h' res,
     private_attrs h -> granular_clear vt W obj selectors h = (h', res) -> private_attrs h'.
-  Proof. unfold granular_clear, bindv. intros obj selectors h h' res P H. crunch H; fin. Qed.
+  Proof. unfold granular_clear. intros. eapply granular_clear_f_priv; eauto. Qed.
   Hint Resolve granular_clear_priv : priv.
 
   Lemma remove_loop_priv : forall t sel ms h h', private_attrs h -> remove_loop t sel ms h = Some h' -> private_attrs h'.
@@ -436,10 +444,19 @@ Section ApiPriv.
   Proof. unfold granular_remove, bindv. intros obj marking selectors h h' res P H. crunch H; fin. Qed.
   Hint Resolve granular_remove_priv : priv.
 
+  Lemma granular_set_f_priv : forall mr lg obj marking selectors h h' res,
+    private_attrs h -> granular_set_f vt W mr lg obj marking selectors h = (h', res) -> private_attrs h'.
+  Proof. unfold granular_set_f, bindv. intros mr lg obj marking selectors h h' res P H. crunch H; fin. Qed.
+  Hint Resolve granular_set_f_priv : priv.
+
   Lemma granular_set_priv : forall obj marking selectors h h' res,
     private_attrs h -> granular_set vt W obj marking selectors h = (h', res) -> private_attrs h'.
-  Proof. unfold granular_set, bindv. intros obj marking selectors h h' res P H. crunch H; fin. Qed.
+  Proof. unfold granular_set. intros. eapply granular_set_f_priv; eauto. Qed.
   Hint Resolve granular_set_priv : priv.
+
+  Lemma deduplicate_priv : forall lst h h' res,
+    private_attrs h -> deduplicate lst h = (h', res) -> private_attrs h'.
+  Proof. unfold deduplicate. intros lst h h' res P H. crunch H; fin. Qed.
 
   Lemma object_add_priv : forall obj marking h h' res,
     private_attrs h -> object_add vt W obj marking h = (h', res) -> private_attrs h'.
@@ -616,6 +633,10 @@ Section ExecPriv.
     - eapply object_set_priv; eauto.
     - eapply api_markings_priv; eauto.
     - eapply remove_custom_stix_priv; eauto.
+    - eapply shallow_copy_priv; eauto.
+    - eapply deduplicate_priv; eauto.
+    - eapply granular_clear_f_priv; eauto.
+    - eapply granular_set_f_priv; eauto.
   Qed.
 
   Lemma run_state_priv : forall ops e h e' h',
